@@ -158,6 +158,10 @@ def _inventory(out, prop, progs, tag):
 def _report_inv(out, prop, failures):
     items = []
     for ob, detail, p, extra in failures[:12]:
+        if extra.get("acc_declaration") and "reproduced_by_compilation" not in extra:
+            compiles, diag = acc.replay_compile(extra["acc_declaration"])
+            extra["acc_replay"] = {"compiles": compiles, "diagnostics": diag[-600:]}
+            extra["reproduced_by_compilation"] = (compiles == (extra["acc_expect"] == "reject"))
         items.append({"obligation": ob, "detail": detail, "program_text": p.decl_text(), "verifier_output": extra,
                       "inputs": None, "src": None, "extra": extra})
     report_violations_acc(out, items)
@@ -206,7 +210,12 @@ def check_c14(out: Outcome):
             for name, ok, detail in inv.builder_obligations(s, invs[s.name]):
                 out.add_ob(f"C14/inv/{p.pid}/{name}", "inventory", "annotator inventory of the real expansion vs. declaration table", ok)
                 if not ok:
-                    failures.append((f"C14/inv/{p.pid}/{name}", detail, p, {"inventory_of": s.name}))
+                    extra = {"inventory_of": s.name}
+                    if name.endswith("builder-absent") or name.endswith("no-partial-impls"):
+                        extra.update({"acc_declaration": p.decl_text() + f"\npub fn use_() {{ let _ = {s.name}::builder(); }}", "acc_expect": "reject"})
+                    elif name.endswith("builder-present"):
+                        extra.update({"acc_declaration": p.decl_text() + f"\npub fn use_() {{ let _ = {s.name}::builder(); }}", "acc_expect": "accept"})
+                    failures.append((f"C14/inv/{p.pid}/{name}", detail, p, extra))
     uses = [u for p in progs for u in inv.builder_use_programs(p)]
     for u, ok, diag in inv.run_use_programs(work, "use", uses):
         ob = f"C14/use/{u.pid}/{u.what}"
@@ -306,7 +315,7 @@ def check_c19(out: Outcome):
                   explanation="{:?} proved by Kani through the real core::fmt for all raw values; {:#?} covered by exhaustive native execution (stand-in)")
 
 
-QUICK_DEBUG_KANI = ("dbg8", "dbg12")
+QUICK_DEBUG_KANI = ("dbg8", "dbg12", "dbgn")
 
 
 def driver_kani_cmd():
